@@ -128,6 +128,44 @@ SCENARIOS.update({
     'S14-user-replaces-a-printer-then-prints': ([[(U, {})], [('call', _replace_uuid_printer), (U, {}), ([U], {})]], (PKG,), False),
     'S13-set-default-config-while-other-prints': ([[('call', _narrow_defaults), (WIDE, {})], [(WIDE, {}), (WIDE, {})]], (PKG,), False),
 })
+import functools as _functools
+import types as _types
+
+PART = _functools.partial(int, '7', base=8)
+MPROXY = _types.MappingProxyType({'a': 1})
+
+
+def _query_uuid():
+    return prettyprinter.is_registered(uuid.UUID, check_superclasses=True, check_deferred=True, register_deferred=False)
+
+
+def _query_and_register_enum():
+    return prettyprinter.is_registered(Color, check_superclasses=True, check_deferred=True, register_deferred=True)
+
+
+OP_POOL = [
+    (U, {}), ([U, U], {}), ({'k': U}, {'width': 20}), (Color.RED, {}), ([Color.RED], {}), (pathlib.PurePosixPath('/a/b c'), {}),
+    (pathlib.PureWindowsPath('C:/x'), {}), (PART, {}), ([PART], {}), (MPROXY, {}), (MyList([1, U]), {}), (Sub(2), {}), (Base(3), {}),
+    (time.gmtime(0), {}), (LONG, {'width': 40}), (COMMENTED, {'width': 30}), (WIDE, {}), (Late(5), {}), (LateSub(6), {}), (Pred(), {}),
+    ('call', _register_late), ('call', _register_pred), ('call', _narrow_defaults), ('call', _replace_uuid_printer), ('call', _query_uuid),
+    ('call', _query_and_register_enum),
+]
+_RANDOM_CACHE = {}
+
+
+def scenario(name):
+    """fixed scenarios by name; 'R:<seed>:<i>' is a seeded random scenario (2 threads x 1-3 operations from OP_POOL)"""
+    if name in SCENARIOS:
+        return SCENARIOS[name]
+    if name not in _RANDOM_CACHE:
+        _, seed, i = name.split(':')
+        rng = V.rng_for('c20rand', int(seed), int(i))
+        progs = [[rng.choice(OP_POOL) for _ in range(rng.randint(1, 3))] for _ in range(2)]
+        files = (PKG,) + STDLIB_FILES if rng.random() < 0.5 else (PKG,)
+        _RANDOM_CACHE[name] = (progs, files, False)
+    return _RANDOM_CACHE[name]
+
+
 SHARED_STATE_FUNCS = {'is_registered', 'register_pretty', 'register_pretty.<locals>.decorator', 'pretty_python_value', '_is_registered',
                       'singledispatch.<locals>.dispatch', 'singledispatch.<locals>.register', 'singledispatch.<locals>.wrapper', '_find_impl', '_compose_mro'}
 
@@ -192,7 +230,7 @@ def install_coop_locks(s):
 def schedule_child(arg):
     """runs ONE schedule in a forked child. arg = (scenario name, policy spec, files override)"""
     name, spec, files = arg
-    progs, sfiles, warm = SCENARIOS[name]
+    progs, sfiles, warm = scenario(name)
     files = files or sfiles
     M.install_warning_recorder()
     if warm:
@@ -226,7 +264,7 @@ def schedule_child(arg):
 
 def sequential_child(arg):
     name, order = arg
-    progs, _, warm = SCENARIOS[name]
+    progs, _, warm = scenario(name)
     M.install_warning_recorder()
     if warm:
         for prog in progs:
@@ -251,7 +289,7 @@ def classify(results, warnings, refs, name=None):
                 for x in v.values():
                     out.extend(reprs(x))
             return out
-        for prog, out, ref in zip(SCENARIOS[name][0], results, refs[0]):
+        for prog, out, ref in zip(scenario(name)[0], results, refs[0]):
             for (value, cfg), r, rr in zip(prog, out, ref):
                 if r[0] == 'ok' and r != rr and not isinstance(value, (str, int)):
                     if any(x in r[1] and x not in rr[1] for x in reprs(value) if len(x) > 3):
@@ -305,11 +343,11 @@ def judge(sh, name, spec, res, refs, ref_warnings):
 
 def run_shard(sh):
     quick = sh.tier == 'quick'
-    names = list(SCENARIOS)
+    names = list(SCENARIOS) + ['R:%d:%d' % (sh.seed, i) for i in range(8 if quick else 400)]
     # sequential references and solo step counts (every shard needs them; cheap)
     refs, refw, nsteps = {}, {}, {}
     for name in names:
-        progs = SCENARIOS[name][0]
+        progs = scenario(name)[0]
         refs[name], refw[name] = [], []
         orders = call_orders(progs)
         if len(orders) > 40:
@@ -324,9 +362,10 @@ def run_shard(sh):
             refw[name].extend(r[1])
     jobs = []
     for name in names:
-        progs, files, warm = SCENARIOS[name]
+        progs, files, warm = scenario(name)
         if not refs[name]:
             continue
+        rand = name.startswith('R:')
         file_sets = [None]
         if not quick and STDLIB_FILES[0] not in files:
             file_sets.append((PKG,) + STDLIB_FILES)
@@ -342,6 +381,8 @@ def run_shard(sh):
                 if len(progs) == 2:
                     # quick: the two long scenarios that touch no registry state on first use are sampled 1:6
                     stride = 12 if quick and name.startswith(('S4', 'S5')) else (4 if quick and name.startswith(('S9', 'S10', 'S13', 'S14')) else 1)
+                    if rand:
+                        stride = 25 if quick else 5
                     for k in range(1, n_a + 1, stride):
                         jobs.append((name, ('at', [(a, k, others[0])]), fs))
                 else:
@@ -351,11 +392,13 @@ def run_shard(sh):
                 # only a LATER call of B can observe)
                 if len(progs) == 2 and len(progs[others[0]]) > 1:
                     stride2 = (40 if name.startswith('S5') else 5) if quick else 1
+                    if rand:
+                        stride2 = 40 if quick else 6
                     for jb in range(1, len(progs[others[0]])):
                         for k in range(1, n_a + 1, stride2):
                             jobs.append((name, ('at+call', a, k, others[0], jb), fs))
                 # two preemptions: A preempted at k1, B preempted the n-th time it is inside a registry function
-                if len(progs) == 2:
+                if len(progs) == 2 and not rand:
                     k1s = range(1, n_a + 1, 150 if quick else 6)
                     for k1 in k1s:
                         for nth in (range(1, 40, 9) if quick else range(1, 120, 2)):
@@ -405,7 +448,7 @@ class TwoPoint:
 
 def two_preemption_child(arg):
     name, a, k1, b, nth, files = arg
-    progs, sfiles, warm = SCENARIOS[name]
+    progs, sfiles, warm = scenario(name)
     files = files or sfiles
     M.install_warning_recorder()
     if warm:
@@ -429,7 +472,7 @@ def stress_child(arg):
     import sys
     import threading
     name, nthreads = arg
-    progs = SCENARIOS[name][0]
+    progs = scenario(name)[0]
     M.install_warning_recorder()
     sys.setswitchinterval(1e-6)
     barrier = threading.Barrier(nthreads)
@@ -496,7 +539,7 @@ def replay(wit):
         fs = tuple(spec[-1])
         spec = spec[:-1]
     refs = []
-    for order in call_orders(SCENARIOS[name][0]):
+    for order in call_orders(scenario(name)[0]):
         st, r = fork_call(sequential_child, (name, order), timeout=120)
         if st == 'ok' and r[0] not in refs:
             refs.append(r[0])
